@@ -693,7 +693,13 @@ func (c *Client) Do(ctx context.Context, q Query) (err error) {
 		result := proto.ColInfoInput{}
 		q.Result = &result
 		colInfo = make(chan proto.ColInfoInput, 1)
+		var gotColInfo bool
 		q.OnResult = func(ctx context.Context, block proto.Block) error {
+			if gotColInfo {
+				// Sender waits for column info only once.
+				return errors.New("unexpected data block: column info already received")
+			}
+			gotColInfo = true
 			if ce := c.lg.Check(zap.DebugLevel, "Received column info"); ce != nil {
 				info := make(map[string]proto.ColumnType, len(result))
 				for _, v := range result {
